@@ -3,10 +3,50 @@
 Exhaustive enumeration; oracle = independent splitter (vf.oracle.resolve) over the
 hand-written table (vf.oracle.table)."""
 
+from vf import core
 from vf.oracle import resolve as R
 from vf.oracle import table as T
 
 MICRO = ("u", "µ", "μ")
+MOD = "vf.checks.c14"
+
+
+def part_double_prefix(payload):
+    """a name that already carries a prefix is not prefixable: p1+p2+base must be rejected unless the oracle has a
+    legitimate reading for the whole string -- also after the inner name has been resolved (and memoised) in that registry"""
+    from unyt import Unit
+    from unyt.exceptions import UnitParseError
+    from unyt.unit_registry import UnitRegistry
+
+    known = core.Known("C14")
+    part = core.Part()
+    reg = UnitRegistry()
+    for p2, b in payload["inner"]:
+        inner = p2 + b
+        if not R.readings(inner) or R.readings(inner)[0][1] != p2:
+            continue
+        for registry in (None, reg):
+            try:
+                Unit(inner, registry=registry)  # resolve (and let the registry memoise) the singly-prefixed name first
+            except UnitParseError:
+                continue
+            for p1 in T.PREFIXES:
+                s = p1 + inner
+                if R.readings(s):
+                    continue
+                part.ev()
+                part.nt(("double-prefix", s))
+                try:
+                    u = Unit(s, registry=registry)
+                except UnitParseError:
+                    continue
+                except Exception as e:
+                    core.classify(known, part, f"C14:double-prefix-escapes:{type(e).__name__}", {"name": s})
+                    continue
+                core.classify(known, part, f"C14:double-prefix-accepted:{b}", {"name": s, "registry": "default" if registry is None else "custom", "got": _unit_facts(u)})
+        if len(part.samples) < 1:
+            part.sample({"inner": inner, "outer examples": ["k" + inner, "m" + inner], "expected": "UnitParseError"})
+    return part
 
 
 def _unit_facts(u):
@@ -193,6 +233,38 @@ def run(ctx):
                         continue
                     ctx.violation(f"C14:prefix-accepted-on-nonprefixable:{canon}",
                                   {"name": s, "got": _unit_facts(u)})
+    # (4) doubly prefixed strings, in the default and in a custom registry, after the inner name was resolved
+    inner = [(p2, b) for b in T.ROWS if T.ROWS[b]["prefixable"] for p2 in T.PREFIXES]
+    if ctx.quick:
+        inner = inner[ctx.seed % 3::3]
+    ctx.merge(core.pmap(MOD, "part_double_prefix", [{"inner": sh} for sh in core.shards(inner, 16)]))
+
+    # (5) a namespace built from a registry whose symbols were modified must agree with that registry
+    import unyt.dimensions as D
+
+    reg2 = UnitRegistry()
+    for sym, val in (("Msun", 2.0e30), ("pc", 3.0e16), ("m", 2.0), ("g", 0.002), ("s", 3.0), ("K", 1.5), ("rad", 0.5), ("Hz", 2.0), ("J", 3.0)):
+        reg2.modify(sym, val)
+    reg2.add("code_length", 7.0, D.length, prefixable=True)
+    ns2 = {}
+    add_symbols(ns2, reg2)
+    nmod = 0
+    for aname, obj in ns2.items():
+        if not isinstance(obj, Unit):
+            continue
+        ctx.ev()
+        try:
+            ref = Unit(aname, registry=reg2)
+        except UnitParseError:
+            continue
+        a, b = _unit_facts(obj), _unit_facts(ref)
+        if a[1] != b[1] or not _close(a[0], b[0], 1e-14) or not _close(a[2], b[2], 1e-12):
+            ctx.violation(f"C14:namespace-disagrees-with-modified-registry:{_rootkey(R.readings(aname)[0][2] if R.readings(aname) else aname)}",
+                          {"name": aname, "namespace": a, "string": b})
+        elif _close(a[0], _unit_facts(getattr(us, aname))[0] if hasattr(us, aname) else a[0], 1e-14) is False:
+            nmod += 1
+            ctx.nt((aname, "modified-registry-namespace"))
+    ctx.count("namespace entries affected by modified symbols", nmod)
     ctx.count("ambiguous strings", namb)
     ctx.count("forbidden prefix strings", nforb)
     ctx.count("documented names", len(names))
